@@ -26,10 +26,29 @@ func (p Persist) Load(ctx context.Context, name string) ([]byte, error) {
 func (p Persist) Store(ctx context.Context, name string, bytes []byte) error {
 	path := filepath.Join(p.basepath, name)
 	_, err := os.Stat(path)
-	if os.IsNotExist(err) {
-		return os.WriteFile(filepath.Join(p.basepath, name), bytes, 0644)
+	if !os.IsNotExist(err) {
+		return nil
 	}
-	return nil
+	// Write under a temporary name and rename, so that the final name only
+	// ever refers to complete contents, whatever happens during the write.
+	tmp, err := os.CreateTemp(p.basepath, ".tmp-"+name+"-")
+	if err != nil {
+		return err
+	}
+	_, err = tmp.Write(bytes)
+	if cerr := tmp.Close(); err == nil {
+		err = cerr
+	}
+	if err == nil {
+		err = os.Chmod(tmp.Name(), 0644)
+	}
+	if err == nil {
+		err = os.Rename(tmp.Name(), path)
+	}
+	if err != nil {
+		os.Remove(tmp.Name())
+	}
+	return err
 }
 
 // NewPersistForPath returns a Persist that loads and stores nodes as
